@@ -292,7 +292,14 @@ class PlugImpl(object):
         elif k == 'pforeign':
             def ff(): pass
             ff._vt_tag = op[1]
-            L.sched.addEvent(ff, op[2])
+            try:
+                L.sched.addEvent(ff, op[2])
+            except AssertionError:
+                # `assert name not in self.events`: the counter name was already taken
+                self.fail('an anonymous schedule.addEvent(f, t) by another component failed with AssertionError: '
+                          'the counter name %r is already scheduled (names in use: %r); that event never runs'
+                          % (L.sched.counter - 1, sorted(map(repr, L.sched.events))))
+                self.tags.add('p-foreign-refused')
             self.tags.add('p-foreign')
         elif k == 'ptick':
             self.clk.t += op[1]
@@ -346,6 +353,14 @@ def gen_ops(r, maxlen=30):
     ops = [['pnew', 1000 + r.randint(0, 20)]]
     c = 0
     ids = []
+    def foreign():
+        return ['pforeign', r.randint(1, 9), 1000 + r.choice([5, 30, 60])]
+    if r.random() < 0.35:
+        # one-shot events with the first ids of the process, still pending at the first restart
+        for _ in range(r.randint(1, 3)):
+            if r.random() < 0.3: ops.append(foreign())
+            c += 1
+            ops.append(['padd', r.choice([40, 60, 90]), c, r.random() < 0.25])
     for _ in range(r.randint(4, maxlen)):
         x = r.random()
         if x < 0.24:
@@ -368,8 +383,13 @@ def gen_ops(r, maxlen=30):
             ops.append(['pload'])
         elif x < 0.76:
             ops.append(['prestart'])
+            # a fresh process: other components schedule their own (anonymous) events right away
+            for _ in range(r.choice([0, 1, 1, 2, 3])):
+                ops.append(foreign())
         elif x < 0.79:
-            ops.append(['pforeign', r.randint(1, 9), 1000 + r.choice([5, 30, 60])])
+            ops.append(foreign())
+            if r.random() < 0.3:
+                ops.append(r.choice([['preload'], ['prestart']])); ops.append(foreign())
         elif x < 0.89:
             ops.append(['ptick', r.choice([1, 2, 3, 5, 8, 13, 30])])
             if r.random() < 0.5:
